@@ -148,7 +148,7 @@ class PortfolioSpace(Space):
         """Used to fill the deque of actions when delay_steps > 0 during the
         initialisation of TradingEnv."""
         # TODO: test.
-        return self.sample() * 0.
+        return self.sample() * 0
 
     def make_rebalancing_request(
         self, action, time: datetime = None, broker: 'tradingenv.broker.Broker' = None
